@@ -6,6 +6,7 @@ import CoapVerif.Lemmas.BlockSrcvHostile
 import CoapVerif.Lemmas.BlockXmit
 import CoapVerif.Lemmas.BlockRtag
 import CoapVerif.Lemmas.BlockNet
+import CoapVerif.Lemmas.BlockNetOnce
 import CoapVerif.Lemmas.BlockTok
 /-
 C09 — block-wise transfer: the sender's body arrives intact, once, or the transfer fails explicitly.
@@ -832,6 +833,127 @@ example :
       [(0, 1, 2, 64), (2, 1, 1, 32), (3, 1, 1, 32), (4, 1, 1, 32), (5, 1, 1, 32), (6, 0, 1, 8)] ∧
     s.outs.getLast? = some (SrcvOut.deliver exPar1.body 200) ∧ s.srv = none ∧
     (s.outs.filter (fun o => match o with | .deliver _ _ => true | _ => false)).length = 1 := by
+  decide +kernel
+
+/-! ### RUN-level "at most once" for the composed Block1 system, with a ghost history (Lemmas/BlockNetOnce.lean)
+
+`b1StepG` = `b1Step` plus the ghost `g`: the request datagrams the server's lg_srcv has processed since the server last had
+NO lg_srcv (the epoch; emptied by every release: delivery, 4.08, time-out).  "At most one delivery per PUT event" is FALSE
+of the code — and not demanded by RFC 7959: once the lg_srcv is released a replay of the complete datagram sequence is a
+new transfer (SPEC DECISION D6; witness below: one PUT, two deliveries).  What holds, for EVERY schedule: -/
+
+/-- Along EVERY schedule of the composed Block1 system (any loss / duplication / replay / reordering of any datagram,
+repeated PUTs, time-outs on either side, single-message bodies included), whenever a request arrival makes the server hand a
+body to the application: it is the client's body, with its exact length, and EVERY byte of it was carried — for exactly that
+offset — by a request datagram that arrived in the CURRENT epoch, i.e. after the lg_srcv was last released (`SentIn1` over
+the ghost).  A block-wise delivery releases the lg_srcv and empties the epoch.  So the number of deliveries is at most the
+number of times a complete set of blocks was received after the previous delivery / release, and nothing received before can
+be used again.  Hypothesis `hN`: the body is addressable with a 20-bit NUM in the settled block size. -/
+theorem at_most_once_block1_run (P : B1Par) (hP : B1ParOK P) (hN : nBlocks P.body.length (b1S P) ≤ 2 ^ 20)
+    (evs : List B1Event) (i : Nat) (d : Req1) :
+    let sg := evs.foldl (b1StepG P) ({}, [])
+    sg.1.reqs[i]? = some d →
+    ∀ b l, (srcvStep P.cap P.junk P.maxBlk sg.1.srv d.num d.m d.szx d.payload d.size1).2 = SrcvOut.deliver b l →
+      (b = P.body ∧ l = P.body.length) ∧
+      (∀ o, o < P.body.length → ∃ v, P.body[o]? = some v ∧ SentIn1 (d.dgram :: sg.2) o v) ∧
+      (¬ (d.num = 0 ∧ d.m = 0) →
+        (b1StepG P sg (B1Event.reqArrives i)).1.srv = none ∧ (b1StepG P sg (B1Event.reqArrives i)).2 = []) := by
+  intro sg hq b l hb
+  obtain ⟨hinv, hgh⟩ := b1RunG_inv P hP hN evs ({}, []) (b1_init_inv P) (b1_init_ghost P)
+  have hd := hinv.req d (List.mem_of_getElem? hq)
+  obtain ⟨e1, e2⟩ := b1Step_req P sg.1 i d hq
+  have hbl : b = P.body ∧ l = P.body.length := by
+    have hnext := b1Step_inv P hP sg.1 (B1Event.reqArrives i) hinv
+    exact hnext.outs _ (by rw [e2]; exact List.mem_append_right _ List.mem_cons_self) b l hb
+  obtain ⟨_, k2⟩ := b1Req_ghost P hN sg.1 sg.2 d hd hgh
+  obtain ⟨_, k4⟩ := k2 b l hb
+  refine ⟨hbl, ?_, ?_⟩
+  · intro o ho
+    rw [hbl.1, hbl.2] at k4
+    exact k4 o ho
+  · intro hn
+    have hrel : (b1StepG P sg (B1Event.reqArrives i)).1.srv = none := by
+      show (b1Step P sg.1 (B1Event.reqArrives i)).srv = none
+      rw [e1]
+      rcases hd with hblk | ⟨q1, q2, _⟩
+      · exact b1Req_release P hP sg.1 d hinv hblk b l hb hn
+      · exact (hn ⟨q1, q2⟩).elim
+    exact ⟨hrel, (b1StepG_ghost P hN sg (B1Event.reqArrives i) hinv hgh).empty hrel⟩
+
+/-- … hence a delivery needs block 0 to have arrived in the current epoch: whatever was received before the last release,
+a replay of datagrams none of which carries NUM 0 — the LAST block alone, the last k blocks, any duplicates of them in any
+order — never makes the server call the application. -/
+theorem block1_replay_without_block0_never_delivers (P : B1Par) (hP : B1ParOK P)
+    (hN : nBlocks P.body.length (b1S P) ≤ 2 ^ 20) (evs : List B1Event) (i : Nat) (d : Req1) :
+    let sg := evs.foldl (b1StepG P) ({}, [])
+    sg.1.reqs[i]? = some d → (∀ d', d' ∈ d.dgram :: sg.2 → d'.num ≠ 0) →
+    ∀ b l, (srcvStep P.cap P.junk P.maxBlk sg.1.srv d.num d.m d.szx d.payload d.size1).2 ≠ SrcvOut.deliver b l := by
+  intro sg hq hno b l hb
+  obtain ⟨hinv, _⟩ := b1RunG_inv P hP hN evs ({}, []) (b1_init_inv P) (b1_init_ghost P)
+  obtain ⟨_, hall, _⟩ := at_most_once_block1_run P hP hN evs i d hq b l hb
+  have hpos : 0 < P.body.length := by
+    rcases hinv.req d (List.mem_of_getElem? hq) with ⟨_, g2, _⟩ | ⟨q1, _, _⟩
+    · have := (lt_nBlocks_iff P.body.length d.szx d.num).mp g2
+      omega
+    · exact (hno d.dgram List.mem_cons_self q1).elim
+  obtain ⟨v, _, d', hd', hle, _⟩ := hall 0 hpos
+  have h2 : 0 < 2 ^ (d'.szx + 4) := Nat.two_pow_pos _
+  have h0 : d'.num = 0 := by
+    cases hn : d'.num with
+    | zero => rfl
+    | succ n =>
+      rw [hn] at hle
+      have h3 : 2 ^ (d'.szx + 4) ≤ (n + 1) * 2 ^ (d'.szx + 4) := Nat.le_mul_of_pos_left (2 ^ (d'.szx + 4)) (Nat.succ_pos n)
+      omega
+  exact hno d' hd' h0
+
+/-- the case asked for: the server holds no lg_srcv (the transfer was delivered, failed or timed out) and a datagram other
+than block 0 arrives — a replayed last block in particular: the application is not called. -/
+theorem block1_replayed_last_block_never_delivers (P : B1Par) (hP : B1ParOK P)
+    (hN : nBlocks P.body.length (b1S P) ≤ 2 ^ 20) (evs : List B1Event) (i : Nat) (d : Req1) :
+    let s := evs.foldl (b1Step P) {}
+    s.reqs[i]? = some d → s.srv = none → d.num ≠ 0 →
+    ∀ b l, (srcvStep P.cap P.junk P.maxBlk s.srv d.num d.m d.szx d.payload d.size1).2 ≠ SrcvOut.deliver b l := by
+  intro s hq hnone hnum
+  have hfst := b1StepG_fst P evs ({}, [])
+  obtain ⟨_, hgh⟩ := b1RunG_inv P hP hN evs ({}, []) (b1_init_inv P) (b1_init_ghost P)
+  have hs : (evs.foldl (b1StepG P) ({}, [])).1 = s := hfst
+  have hemp := hgh.empty (by rw [hs]; exact hnone)
+  have := block1_replay_without_block0_never_delivers P hP hN evs i d (by rw [hs]; exact hq)
+    (by
+      intro d' hd'
+      rw [hemp, List.mem_singleton] at hd'
+      rw [hd']
+      exact hnum)
+  rw [hs] at this
+  exact this
+
+/-- `hN` is satisfiable: 200 bytes in 32-byte blocks are 7 blocks -/
+example : nBlocks exPar1.body.length (b1S exPar1) ≤ 2 ^ 20 := by decide +kernel
+
+/-- WITNESS that "at most one delivery per PUT" is not what the code does (D6): ONE PUT; after the delivery the complete
+sequence of request datagrams is replayed and the server — which has released its lg_srcv — delivers the body again; a
+replay of the last block alone (`reqArrives 5` at the end) does not. -/
+example :
+    let first : List B1Event := [.appPut, .reqArrives 0, .rspArrives 0, .reqArrives 1, .rspArrives 1, .reqArrives 2,
+      .rspArrives 2, .reqArrives 3, .rspArrives 3, .reqArrives 4, .rspArrives 4, .reqArrives 5]
+    let replay : List B1Event := [.reqArrives 0, .reqArrives 1, .reqArrives 2, .reqArrives 3, .reqArrives 4, .reqArrives 5]
+    let isD : SrcvOut → Bool := fun o => match o with | .deliver _ _ => true | _ => false
+    ((first.foldl (b1Step exPar1) {}).outs.filter isD).length = 1 ∧
+    (((first ++ replay).foldl (b1Step exPar1) {}).outs.filter isD).length = 2 ∧
+    (((first ++ replay ++ [B1Event.reqArrives 5]).foldl (b1Step exPar1) {}).outs.filter isD).length = 2 ∧
+    (((first ++ [B1Event.reqArrives 5, B1Event.reqArrives 4, B1Event.reqArrives 5]).foldl (b1Step exPar1) {}).outs.filter isD).length = 1 ∧
+    ((first ++ replay).foldl (b1StepG exPar1) ({}, [])).2 = [] := by
+  decide +kernel
+
+/-- single-message bodies in the composed system (`adlNoBlock`: no lg_xmit, no Size1, Block1 absent): 40 bytes in one
+message; every arrival of that datagram is a request of its own (D6) and hands over exactly the body -/
+def exPar1s : B1Par := { exPar1 with body := (List.range 40).map (fun i => UInt8.ofNat i), blk := none }
+
+example :
+    let s := [B1Event.appPut, .reqArrives 0, .reqArrives 0].foldl (b1Step exPar1s) {}
+    s.reqs.map (fun d => (d.num, d.m, d.szx, d.payload.length, d.size1)) = [(0, 0, 0, 40, none)] ∧ s.cli = none ∧
+    s.outs = [.deliver exPar1s.body 40, .deliver exPar1s.body 40] ∧ s.srv = none := by
   decide +kernel
 
 /-! ## Client: what the application's handlers see of a transfer libcoap runs under tokens of its own
